@@ -63,14 +63,14 @@ func init() {
 		ID: "C07", Imports: "From Akita Require Import Lib.Base C07.Model C07.Exec.",
 		Rule: "three families from one PRNG. (1) whole simulations (SerialEngine with 0-3 handlers, 0-6 queued " +
 			"events at few distinct times, optional RunUntil, ID generator, 0-7 entities among ticking / event-driven " +
-			"components, ports with buffered messages, storages with written units, page tables; names with " +
+			"components, ports with buffered messages, storages with written / zero-written / only-read / cleared units, page tables; names with " +
 			"characters that PathEscape rewrites): SaveCheckpoint -> rebuild with the same configuration in a random " +
 			"registration order -> LoadCheckpoint -> SaveCheckpoint, archive bytes compared. (2) the same with one " +
 			"single-point mutation of the rebuilt configuration (16 kinds: build id, entity missing/extra/renamed, " +
 			"spec, port capacities, storage capacity/unit size, page size, missing handler, unregistered message / " +
-			"event type, non-empty engine). (3) a valid archive damaged in one of 22 ways (entry level: missing / " +
+			"event type, non-empty engine). (3) a valid archive damaged in one of 25 ways (entry level: missing / " +
 			"duplicate / empty build_id, dropped / duplicated / aliased entity, unknown entry, bad escape, directory / " +
-			"symlink entry, junk / swapped / structurally mutated payload, kind swap; byte level: bit flips, truncation, " +
+			"symlink entry, junk / swapped / structurally mutated payload, kind swap, an entry HEADER claiming 2^48..2^62 bytes or fewer bytes than present; byte level: bit flips, truncation, " +
 			"gzip-valid tar garbage, not gzip, empty, trailing garbage), plus single-entity probes: the saved payload " +
 			"of a random entity, intact / structurally mutated JSON (null, wrong types, oversize lists, deleted keys) / " +
 			"damaged bytes / junk, loaded into an entity whose configuration may differ, and ~110 directed payloads " +
